@@ -29,6 +29,13 @@ def oserr(code, path):
     return cls(code, 'modelfs', path)
 
 
+NAME_MAX = 255
+
+
+def too_long(name):
+    return len(name.encode('utf-8', 'surrogateescape')) > NAME_MAX
+
+
 class ModelFS:
     def __init__(self, eng, root='/s'):
         self.eng = eng
@@ -130,14 +137,20 @@ class ModelFS:
             if pk == FILE:
                 raise oserr(errno.ENOTDIR, p)
             if pk == DIR:
+                # the walk got as far as par; the next component is the one that fails
+                if too_long(posixpath.basename(q)):
+                    raise oserr(errno.ENAMETOOLONG, p)
                 raise oserr(errno.ENOENT, p)
             q, par = par, posixpath.dirname(par)
         raise oserr(errno.ENOENT, p)
 
-    def parent_dir(self, p):
+    def parent_dir(self, p, check_name=True):
         par = self.lookup(posixpath.dirname(p))
         if par.kind != DIR:
             raise oserr(errno.ENOTDIR, p)
+        if check_name and too_long(posixpath.basename(p)):
+            # creating (or looking up) an entry whose name exceeds NAME_MAX in an existing directory
+            raise oserr(errno.ENAMETOOLONG, p)
         return par
 
     def children(self, d):
@@ -215,9 +228,11 @@ class ModelFS:
     def rename(self, a, b, op='rename'):
         self._call(op, (a, b), True)
         # the kernel resolves both parent directories first, then looks at the source
-        self.parent_dir(a)
-        self.parent_dir(b)
+        self.parent_dir(a, check_name=False)
+        self.parent_dir(b, check_name=False)
         n = self.lookup(a)
+        if too_long(posixpath.basename(b)):
+            raise oserr(errno.ENAMETOOLONG, b)
         if a == b:
             return
         if a.startswith(b + '/'):
